@@ -53,7 +53,7 @@ def run(tier):
     common.build(["hook"])
     common.replay_witnesses(ck, ["hook"])
     avoid = ck.findings.avoid_tags()
-    n = 1200 if quick else 30000
+    n = 1200 if quick else 30000 * common.TS
     plist = []
     for name, prof in profiles(avoid):
         rng = ck.rng.fork(name)
@@ -66,7 +66,7 @@ def run(tier):
 
     from ..gen import feat_fiber as _ff
     rxf = ck.rng.fork("xmodfib")
-    for i in range(250 if quick else 8000):
+    for i in range(250 if quick else 8000 * common.TS):
         _src, _mods = _ff.xmod_fiber_program(rxf.fork(str(i)))
         plist.append({"name": "xmodfiber/%d" % i, "steps": [("snip", _src)], "mods": _mods})
 
